@@ -785,14 +785,22 @@ fn crash_points(rep: &mut Rep, seed: u64, n_kills: usize) {
         }
     };
     let mut rng = rng_for(seed, "c16-crash");
+    let mut quiescent_no = 0usize;
     for kx in 0..n_kills {
-        let depth = [5usize, 8, 20][kx % 3];
-        // configurations without a short background flush period first: there only the explicit flush makes data durable
-        let variant = [0usize, 2, 4, 0, 1, 3, 5, 2][kx % 8];
         let hseed = seed * 1000 + kx as u64;
         let n_ops = 70;
         // two out of three kills hit a quiescent process right after an acknowledgement, the others land mid-work
         let pause_ms: u64 = if kx % 3 == 2 { 0 } else { 60 };
+        // quiescent kills enumerate (kind of the segment that the acknowledged flush closes) x (depth) x
+        // (configuration in which only the explicit flush makes data durable within the window) instead of sampling
+        // them; the seed offsets the enumeration
+        let (depth, variant, planned_ack) = if pause_ms > 0 {
+            let q = quiescent_no + seed as usize;
+            quiescent_no += 1;
+            ([5usize, 8, 20][q % 3], [0usize, 2, 4, 0][(q / 5) % 4], Some(2 + q % 5))
+        } else {
+            ([5usize, 8, 20][kx % 3], [0usize, 2, 4, 0, 1, 3, 5, 2][kx % 8], None)
+        };
         let base = fresh_dir(&format!("crash{kx}"));
         let path = format!("{base}/db");
         let mut ch = match std::process::Command::new(&me)
@@ -809,7 +817,7 @@ fn crash_points(rep: &mut Rep, seed: u64, n_kills: usize) {
         };
         let mut rd = BufReader::new(ch.stdout.take().unwrap());
         // wait for the target ACK, then kill after a random delay
-        let target_ack = rng.gen_range(1..=7usize);
+        let target_ack = planned_ack.unwrap_or_else(|| rng.gen_range(1..=7usize));
         let mut acked = 0usize;
         let mut seen = 0usize;
         let mut line = String::new();
@@ -866,6 +874,9 @@ fn crash_points(rep: &mut Rep, seed: u64, n_kills: usize) {
         }
         rep.ev();
         rep.stratum(format!("crash|d{depth}|variant{variant}|delay={delay_ms}ms|acks={}|{}", seen.min(8), if pause_ms > 0 { "quiescent" } else { "in-flight" }));
+        if pause_ms > 0 && seen >= 2 {
+            rep.stratum(format!("crash-quiescent|after-segment-kind={}|d{depth}", ["mixed", "batch-only-not-growing", "single-leaf-only", "metadata-only", "batch-then-delete"][(seen - 2) % 5]));
+        }
         let t0 = std::time::Instant::now();
         match open(depth, &path, variant) {
             Ok(mut r) => {
